@@ -120,7 +120,7 @@ func c17Merge(dst, src interface{}, opts ...interface{}) error {
 func c17IsURL(s string) bool { return false }
 
 // VerifC17: n files (2..4); every file has 0..2 symbolic imports among the files, the directory /p/sub and a missing file.
-func VerifC17(n int) {
+func VerifC17(n, part int) {
 	rt.Unwind(2000)
 	c17N = n
 	c17 = nil
@@ -130,7 +130,9 @@ func VerifC17(n int) {
 			f.exists = rt.Bool("exists." + c17Short[k])
 		}
 		f.parses = rt.Bool("parses." + c17Short[k])
-		cnt := rt.Concrete(rt.Choice("nimports."+c17Short[k], 3))
+		cnt := part % 3 // the vector of import counts is fixed per job
+		part /= 3
+		rt.Observe("nimports."+c17Short[k], cnt)
 		texts := c17FromTop
 		if k >= 2 {
 			texts = c17FromSub
